@@ -251,6 +251,20 @@ func TestVerifC15(t *testing.T) {
 		}
 	}
 
+	// ---- 2b. the codec in the connection: concurrent senders and a pooled stream buffer. What the server decompresses for
+	// every request must be that request's cells; what the client decompresses must be that caller's cells.
+	for k := 0; k < 2; k++ {
+		wrong, wire := rcStressWith(12, 1500, snappy.New(), true)
+		for _, w := range wire {
+			bad("compressed-stream-on-the-wire", "12 concurrent senders x 1500 requests (puts and gets) on one snappy connection: %s", w)
+		}
+		for _, w := range wrong {
+			bad("compressed-stream-to-the-caller", "12 concurrent senders x 1500 requests (puts and gets) on one snappy connection: %s", w)
+		}
+		distinct++
+		evals++
+	}
+
 	// ---- 3. real snappy: structure at real chunk size, both directions
 	type sv struct {
 		Len, BlockLen int
